@@ -17,6 +17,12 @@ RULE = (
     "task outside the running chain stays suspended in a NonAsync block across a flush, and outcomes equal the "
     "reference's prediction. distinct = program hash; non-trivial = some context saw >= 2 resume/pause pairs."
 )
+RULE += (
+    " Further structured families: a context whose own pause() raises exactly when its block is LEFT (handled "
+    "by the task, which is suspended again later: the context that was left must not be heard of again); "
+    "'revisit' programs (see C01), half of them with a NonAsyncContext around the second parent's await - "
+    "nothing needs flushing for it any more, so it must not fail."
+)
 ASSUMPTIONS = [
     "contexts of tasks awaited by several parents are unconstrained while a shared descendant runs (the statement says 'only it')",
     "contexts whose own pause()/resume() raise are unconstrained (C08 covers what the scheduler does then); every other context in such a run is still checked",
